@@ -33,7 +33,7 @@ OUTSIDE = {"bk": "éü€字", "utf-8": "", "koi8-r": "éü€字", "latin-1": "
 
 def plan(tier, seed):
     n = 16 if tier == "quick" else 48
-    total = 4000 if tier == "quick" else 80000
+    total = 4000 if tier == "quick" else 300000
     return [{"part": i, "parts": n, "seed": seed, "tier": tier, "count": total // n} for i in range(n)]
 
 
